@@ -1,0 +1,37 @@
+// Event counters used by external verification tooling. This module only exists when the `verif`
+// feature is enabled.
+use std::cell::Cell;
+
+// The index of each counter.
+pub const OPEN_HOLE: usize = 0; // `open` replaced an unresolved unifier by a fresh one
+pub const SHIFT_HOLE: usize = 1; // `signed_shift` adjusted the shift of an unresolved unifier
+pub const CACHE_MISS: usize = 2; // a parsing function ran its body (memo table miss)
+pub const SCAN_STEP: usize = 3; // an `expect_token_*!` recovery scan advanced by one token
+
+thread_local! {
+    static COUNTERS: [Cell<u64>; 4] = const { [Cell::new(0), Cell::new(0), Cell::new(0), Cell::new(0)] };
+}
+
+// Increment a counter.
+pub fn bump(counter: usize) {
+    COUNTERS.with(|counters| counters[counter].set(counters[counter].get() + 1));
+}
+
+// Read and reset all the counters.
+#[allow(dead_code)]
+pub fn take() -> [u64; 4] {
+    COUNTERS.with(|counters| {
+        let values = [
+            counters[0].get(),
+            counters[1].get(),
+            counters[2].get(),
+            counters[3].get(),
+        ];
+
+        for counter in counters {
+            counter.set(0);
+        }
+
+        values
+    })
+}
